@@ -242,6 +242,17 @@ def leg3_eval(case):
             d2 = ta.diff(tb)
             if d2.edited_cost() != d.edited_cost():
                 return {'key': f'second_diff_differs @ TreeNode.diff : {tag}', 'detail': f'{d.edited_cost()} then {d2.edited_cost()}'}
+            # a diff tree is itself a tree that can be given to a comparison: it must not be altered either, and
+            # repeating that comparison must give the same result
+            cost_d = d.edited_cost()
+            before_d = fingerprint((d, tb), skip_attrs=MEMO, drop_class_defaults=True)[0]
+            g1 = d.diff(tb).edited_cost()
+            g2 = d.diff(tb).edited_cost()
+            after_d = fingerprint((d, tb), skip_attrs=MEMO, drop_class_defaults=True)[0]
+            if after_d != before_d or d.edited_cost() != cost_d:
+                return {'key': f'input_tree_changed @ TreeNode.diff of a diff tree : {kind}', 'detail': f'A={case["a"]!r} B={case["b"]!r} ({tag})'}
+            if g1 != g2:
+                return {'key': f'second_diff_differs @ TreeNode.diff of a diff tree : {kind}', 'detail': f'{g1} then {g2} ({tag})'}
             return None
     except CaseTimeout:
         return {'key': f'timeout @ diff : {tag}', 'detail': ''}
